@@ -221,6 +221,12 @@ func (p *Parser) MergeFile(path string) error {
 		return err
 	}
 
+	// Inheritance is not followed here, so $parent is not a directive to
+	// evaluate: drop it rather than leaving it in the document.
+	for _, doc := range f.docs {
+		doc.PopMapValue("$parent")
+	}
+
 	return p.mergeFile(f)
 }
 
